@@ -119,6 +119,16 @@ def _judge_c11(v, job, res, stats):
     for tag, ms in mods.items():
         if len(ms) != 1:
             v.violation(f"C11|namespace-split-over-modules|shape={shape}", {"job": where, "tag": tag, "modules": sorted(ms)})
+        elif "" in ms:
+            # every file has a target namespace, so its components belong into that namespace's module
+            v.violation(f"C11|component-outside-its-namespace-module|shape={shape}", {"job": where, "tag": tag})
+    owners = {}
+    for tag, ms in mods.items():
+        for mo in ms:
+            owners.setdefault(mo, set()).add(tag)
+    for mo, tags in owners.items():
+        if mo and len(tags) > 1:
+            v.violation(f"C11|two-files-in-one-module|shape={shape}", {"job": where, "module": mo, "files": sorted(tags)})
     return call.get("sha")
 
 
@@ -410,7 +420,8 @@ def synth_wsdl(r, n_ops, headers=True, parts_attr=None, styles=None):
             h += f'<soap:header message="tns:{O}In" part="auth" use="literal"/>'
         if hdrs[o] >= 2:
             h += f'<soap:header message="tns:{O}In" part="trace" use="literal"/>'
-        out = "" if o in oneway else '<wsdl:output><soap:body use="literal"/></wsdl:output>'
+        out_parts = ' parts="parameters"' if r.random() < 0.4 else ""
+        out = "" if o in oneway else f'<wsdl:output><soap:body use="literal"{out_parts}/></wsdl:output>'
         action = f'http://zv.test/actions/{O}' if r.random() < 0.7 else ""
         x.append(f'<wsdl:operation name="{O}"><soap:operation soapAction="{action}"/><wsdl:input>{h}{body}</wsdl:input>{out}'
                  f'</wsdl:operation>\n')
